@@ -45,6 +45,55 @@ type tcase struct {
 	// bound (Tpl says which bound is the variable); every evaluation must give what that slice alone gives
 	Tpl  int      `json:"tpl,omitempty"`
 	Vals []*int64 `json:"vals,omitempty"`
+	// derived mode: the receiver is built by operations (Pre selects the derivation) next to a sibling built from
+	// the same parts; Sp spells the bounds as ints that are not int literals (1 boolean arithmetic, 2 typed instance)
+	Sp int `json:"sp,omitempty"`
+}
+
+var arrDerivations = []string{
+	"head := [10, 11, 12]\nx := [*head, 13]\ny := [*head, 99]",
+	"head := [10, 11, 12]\ny := [*head, 99]\nx := [*head, 13]",
+	"x := [10, 11, 12] + [13]\ny := [10, 11, 12] + [99]",
+	"base := [10, 11, 12, 13, 14, 15]\nx := base[0:4]\ny := base[0:3] + [99]",
+	"x := (10:14).A\ny := x + [99]",
+	"x := [10, 11, 12, 13]",
+}
+
+var strDerivations = []string{
+	"h := \"abc\"\nx := h + \"d\"\ny := h + \"z\"",
+	"x := \"abcdef\"[0:4]\ny := \"abcdef\"[0:3] + \"z\"",
+	"x := [\"ab\", \"cd\"].join(\"\")\ny := x + \"z\"",
+	"x := \"abcd\"",
+}
+
+func spell(sp int, p *int64) string {
+	if p == nil || sp == 0 {
+		return pstr(p)
+	}
+	if sp == 2 {
+		return "Int.bear.new(" + pstr(p) + ")"
+	}
+	switch *p {
+	case 0:
+		return "(true - 1)"
+	case 1:
+		return "(true * 1)"
+	case -1:
+		return "(false - 1)"
+	}
+	return fmt.Sprintf("(true * %s)", pstr(p))
+}
+
+func (t tcase) derivedSrc() string {
+	pre := strDerivations[t.Pre%len(strDerivations)]
+	if t.Kind == "arr" {
+		pre = arrDerivations[t.Pre%len(arrDerivations)]
+	}
+	e := fmt.Sprintf("x[%s:%s", spell(t.Sp, t.Start), spell(t.Sp, t.Stop))
+	if t.Step != nil {
+		e += ":" + spell(t.Sp, t.Step)
+	}
+	return pre + "\n" + e + "]"
 }
 
 var multi = []rune{'é', '日', '𝄞', 'a', 'ß', '語', '😀', 'z', 'Ω'}
@@ -285,8 +334,12 @@ func (e *env) judge(t tcase, o panrun.Obs) {
 		e.c.Nontrivial(1)
 	}
 	e.c.Validated(1)
+	desc, repro := t.src(), "("+t.src()+").p\n"
+	if t.Mode == "derived" {
+		desc, repro = strings.ReplaceAll(t.derivedSrc(), "\n", "; "), "("+strings.ReplaceAll(t.derivedSrc(), "\n", "; ")+").p\n"
+	}
 	bad := func(exp string) {
-		e.c.Violation(core.Violation{Key: key(t, o, ref), Case: core.JSON(t), Desc: t.src() + " [" + t.Mode + "]", Expected: exp, Observed: o.Short(), Repro: "(" + t.src() + ").p\n"})
+		e.c.Violation(core.Violation{Key: key(t, o, ref), Case: core.JSON(t), Desc: desc + " [" + t.Mode + "]", Expected: exp, Observed: o.Short(), Repro: repro})
 	}
 	if o.Kind == "syntax" {
 		e.c.HarnessError("generated source does not parse: %s: %s", t.src(), o.ErrMsg)
@@ -399,6 +452,35 @@ func run(c *core.Ctx) {
 			}
 		}
 	}, histSrc, func(t tcase, o panrun.Obs) { e.judgeHist(t, o) })
+	// receivers built by operations next to a sibling built from the same parts; bounds that are ints without being int literals
+	tk.Batched(c, 1500, "", func(emit func(tcase)) {
+		win := []*int64{nil, ip(-6), ip(-5), ip(-4), ip(-3), ip(-2), ip(-1), ip(0), ip(1), ip(2), ip(3), ip(4), ip(5), ip(6)}
+		small := []*int64{nil, ip(-1), ip(0), ip(1), ip(2)}
+		for _, kind := range []string{"arr", "ascii"} {
+			nd := len(strDerivations)
+			if kind == "arr" {
+				nd = len(arrDerivations)
+			}
+			for d := 0; d < nd; d++ {
+				for _, a := range win {
+					for _, b := range win {
+						for _, st := range []*int64{nil, ip(1), ip(-1), ip(2), ip(-2), ip(3)} {
+							emit(tcase{Kind: kind, N: 4, Start: a, Stop: b, Step: st, Mode: "derived", Pre: d})
+						}
+					}
+				}
+			}
+			for sp := 1; sp <= 2; sp++ {
+				for _, a := range small {
+					for _, b := range small {
+						for _, st := range small {
+							emit(tcase{Kind: kind, N: 4, Start: a, Stop: b, Step: st, Mode: "derived", Pre: nd - 1, Sp: sp})
+						}
+					}
+				}
+			}
+		}
+	}, func(t tcase) string { return t.derivedSrc() }, func(t tcase, o panrun.Obs) { e.judge(t, o) })
 	// one slice expression with a variable bound, evaluated several times with different values
 	tk.Batched(c, 300, "", func(emit func(tcase)) { genReeval(c.Pick(2, 3), emit) }, reevalSrc, func(t tcase, o panrun.Obs) { e.judgeReeval(t, o) })
 }
@@ -557,6 +639,11 @@ func replay(c *core.Ctx, raw json.RawMessage) {
 	if t.Mode == "history" {
 		obs := c.R().Thunks("", []string{histSrc(t)}, "")
 		e.judgeHist(t, obs[0])
+		return
+	}
+	if t.Mode == "derived" {
+		obs := c.R().Thunks("", []string{t.derivedSrc()}, "")
+		e.judge(t, obs[0])
 		return
 	}
 	if t.Mode == "source" {
